@@ -181,6 +181,9 @@ Example C02_set_the_example :
   gen_lingo (reify_s en [] 0 (SSetMenu 3 (EInt 2) (EInt 1) (EInt 0))) 1 = ("    set the enabled of menuItem 2 of menu 1 = 0" ++ "
 ")%string /\
   gen_js (reify_s en [] 0 (SSetMenu 3 (EInt 2) (EInt 1) (EInt 0))) 1 false = ("    _menuBar.menu[1].item[2].enabled = 0;" ++ "
+")%string /\
+  (* put v into / after / before field f, and a local variable (SPutField, SPutLoc: 59 x6 / 59 x5) *)
+  gen_lingo (reify_s en [] 0 (SPutField PAfter (EInt 3) (EInt 7))) 1 = ("    put 7 after field 3" ++ "
 ")%string.
 Proof. split; [cbn; repeat split; try lia; right; reflexivity|]. split; [cbn; repeat split; reflexivity|]. repeat split; vm_compute; reflexivity. Qed.
 
